@@ -255,6 +255,11 @@ def gen_cases(run, per_class):
                 d = s.get("default") or {}
                 if d.get("d") == "const" and r.random() < 0.6:
                     o[s["name"]] = d["v"] if r.random() < 0.7 else (not d["v"] if isinstance(d["v"], bool) else d["v"])
+            if r.random() < 0.25:
+                # let the library fill in what it can: the constructor's clock and fresh identifiers
+                for sl in gen.classes[cid]["slots"]:
+                    if (sl.get("default") or {}).get("d") in ("now", "uuid4"):
+                        o.pop(sl["name"], None)
             custom = r.random() < 0.35
             if custom:
                 inject_custom(gen, cid, o)
@@ -340,6 +345,9 @@ FIXED_CASES = [
      "data": {"id": "bundle--00000000-0000-4000-8000-000000000004", "spec_version": "2.0",
               "objects": [{"type": "ipv4-addr", "id": "ipv4-addr--ff26c055-6336-5bc5-b98d-13d6226742dd", "value": "198.51.100.3"}]},
      "allow": False, "opts": [{}, {"pretty": True}]},
+    # a 2.0 statement marking whose creation time is taken from the clock
+    {"route": "construct", "cid": "2.0/MarkingDefinition",
+     "data": {"definition_type": "statement", "definition": {"statement": "x"}}, "allow": False, "opts": [{}, {"pretty": True}]},
     # a year below 1000 (C15's zero padding)
     {"route": "parse", "cid": "2.1/Identity",
      "data": {"type": "identity", "spec_version": "2.1", "id": "identity--00000000-0000-4000-8000-000000000002",
@@ -361,6 +369,9 @@ def classify(case, res, f):
     if (f["kind"] == "reserialize-differs" and res.get("cls") == "2.0/MarkingDefinition" and case.get("derive")
             and isinstance(d.get("created"), str) and "." in d["created"] and d.get("definition_type") != "tlp"):
         return "C01-v20-marking-created-precision-lost-on-rebuild"
+    if (f["kind"] in ("not-equal", "reserialize-differs") and res.get("cls") == "2.0/MarkingDefinition"
+            and "created" not in d and d.get("definition_type") != "tlp"):
+        return "C01-v20-marking-default-created-not-reparsed-equal"
     if f["kind"] == "reserialize-differs" and has_unregistered_toplevel_ext(d):
         return "C01-extension-property-order-is-set-iteration-order"
     if f["kind"] == "reparse-refused" and case["cid"] == "2.0/Bundle" and any(
